@@ -1,9 +1,10 @@
 INIT Init
 NEXT Next
 CONSTANTS
+  RichModels = {"prims", "enums"}
   RichDepth = 1
-  BaseDepth = 1
-  NParam = 12
+  BaseDepth = 2
+  NParam = 8
   ParamDepth = 1
   MutDepth = 1
   MutStar = FALSE
